@@ -49,13 +49,38 @@ def showRes (r : P Res) (n : Nat) : String :=
   | .error e => s!"err|{e.kind.message}|{str ((e.markers n).map fun c => if c == ' ' then '.' else c)}"
 
 /-- prefix-coded source ASTs: `num d d ... ;` `var name idx|-` `paren e` `jump e` `mean e` `prod f tail` `pnil`
-`pcons f tail` `sum 0|1 first tail` `tnil` `tcons 0|1 t tail` `powint b 0|1 d d ... ;` `powexpr b e` `frac n d` -/
+`pcons f tail` `sum 0|1 first tail` `tnil` `tcons 0|1 t tail` `powint b 0|1 d d ... ;` `powexpr b e` `frac n d` `dec d.. ; nofp|fp d.. ; noex|ex 0|1 d.. ;` `call name idx|- e` -/
 partial def readSrc : List String → Option (Src × List String)
   | "num" :: rest =>
     let ds := rest.takeWhile (· ≠ ";")
     match ds.mapM (·.toNat?), rest.dropWhile (· ≠ ";") with
     | some d, _ :: rest' => some (.num d, rest')
     | _, _ => none
+  | "dec" :: rest =>
+    let ipT := rest.takeWhile (· ≠ ";")
+    match ipT.mapM (·.toNat?), rest.dropWhile (· ≠ ";") with
+    | some ip, _ :: r1 =>
+      let fpRes : Option (Option (List Nat) × List String) :=
+        match r1 with
+        | "nofp" :: r2 => some (none, r2)
+        | "fp" :: r2 =>
+          match (r2.takeWhile (· ≠ ";")).mapM (·.toNat?), r2.dropWhile (· ≠ ";") with
+          | some f, _ :: r3 => some (some f, r3)
+          | _, _ => none
+        | _ => none
+      match fpRes with
+      | some (fp, r3) =>
+        match r3 with
+        | "noex" :: r4 => some (.dec ip fp none, r4)
+        | "ex" :: ng :: r4 =>
+          match (r4.takeWhile (· ≠ ";")).mapM (·.toNat?), r4.dropWhile (· ≠ ";") with
+          | some d, _ :: r5 => some (.dec ip fp (some (ng == "1", d)), r5)
+          | _, _ => none
+        | _ => none
+      | none => none
+    | _, _ => none
+  | "call" :: name :: idx :: rest =>
+    (readSrc rest).map fun (e, r) => (.call name.toList (if idx == "-" then [] else idx.toList) e, r)
   | "var" :: name :: idx :: rest => some (.var name.toList (if idx == "-" then [] else idx.toList), rest)
   | "paren" :: rest => (readSrc rest).map fun (e, r) => (.paren e, r)
   | "jump" :: rest => (readSrc rest).map fun (e, r) => (.jump e, r)
